@@ -123,6 +123,17 @@ func c09CheckHeader(hb []byte) (sig, what string) {
 			return "oracle-broken", fmt.Sprintf("layout table does not cover $%04X", 0xFFB0+i)
 		}
 	}
+	// the query methods are read-only: asking a parsed header about itself must not change it
+	{
+		snap := h
+		for _, a := range []uint32{0x007FB0, 0x00FFB0, 0x40FFB0, 0} {
+			_ = h.Score(a)
+		}
+		_, _, _ = h.ROMSizeBytes(), h.RAMSizeBytes(), h.HeaderVersion()
+		if !reflect.DeepEqual(h, snap) {
+			return "unexplained:query-changes-header", fmt.Sprintf("Score/ROMSizeBytes/RAMSizeBytes/HeaderVersion changed the parsed header: %+v -> %+v", snap, h)
+		}
+	}
 	// serialise: 80 bytes that parse back to an identical header
 	var buf bytes.Buffer
 	if err := h.WriteHeader(&buf); err != nil {
